@@ -184,8 +184,13 @@ def make_segment(read, seqs, header):
     if read.get("unmapped"):
         a.flag = 4
         a.query_sequence = read.get("seq_override", "CGCGCGCGCG")
-        a.reference_id = -1
-        a.reference_start = -1
+        if read.get("chr"):
+            # an unmapped record that carries RNAME/POS (as unmapped mates placed at their mate's position): no CIGAR
+            a.reference_id = header.get_tid(read["chr"])
+            a.reference_start = read.get("pos", 1) - 1
+        else:
+            a.reference_id = -1
+            a.reference_start = -1
         a.mapping_quality = 0
         for k, v in read.get("tags", {}).items():
             a.set_tag(k, v)
